@@ -23,7 +23,7 @@ NoSel == [has |-> FALSE, seq |-> -1, obid |-> -1, t0 |-> 0, tlast |-> 0, ok |-> 
 MonInit == [cfg |-> [select_to |-> 5000, any_master |-> FALSE, self_addr |-> FALSE], sc |-> "",
             viol |-> <<>>, sel |-> NoSel, last |-> [bid |-> -1, seq |-> -1, fc |-> -1]]
 
-V(m, reason, l, ctx) == [m EXCEPT !.viol = Append(@, Viol("C04", reason, l, m.sc, ctx))]
+V(m, reason, l, ctx) == [m EXCEPT !.viol = IF Len(@) >= 300 THEN @ ELSE Append(@, Viol("C04", reason, l, m.sc, ctx))]
 
 \* operate callbacks of type select-before-operate (the last integer of the callback is the
 \* operate type: 1 = SelectBeforeOperate, 2 = DirectOperate, 3 = DirectOperateNoAck)
